@@ -67,6 +67,14 @@ def obligations(tier):
                               params={'handler': h, 'kind': kd, 'writers': nw}, functions=F, stubs=STUBS,
                               bounds=f'1 {h} request x {nw} committing {kd} transaction(s); all interleavings of the recorded events',
                               claim='no interleaving lets the response combine data of different MdibVersions / carry a wrong version'))
+    # requests that select by handle while a transaction changes the EXISTENCE of the selected descriptor
+    for h, sel, kd in (('GetMdDescription', 'touched', 'delete'), ('GetMdDescription', 'created', 'create'),
+                       ('GetMdState', 'touched', 'delete'), ('GetMdState', 'created', 'create')):
+        obs.append(Ob(f'C07.{h}[{sel}].vs.{kd}.w1', 'checks.C07', 'ob_snapshot', kind='py', timeout=240,
+                      params={'handler': h, 'kind': kd, 'writers': 1, 'select': sel}, functions=F, stubs=STUBS,
+                      bounds=f'1 {h} request with a HandleRef naming the descriptor that 1 committing descriptor transaction '
+                             f'{"removes" if kd == "delete" else "creates"}; all interleavings of the recorded events',
+                      claim='the set of entities selected is the one that existed at the MdibVersion the answer states'))
     if tier == 'thorough':
         # requests that select by handle (other code path in the handlers) and writers of two different kinds
         for h in ('GetMdState', 'GetContextStates', 'GetMdDescription'):
@@ -118,6 +126,9 @@ def _mk_req(dev, service, method, handle_refs=()):
     return req
 
 
+CREATED_HANDLE = 'verif_created'
+
+
 def _handle_refs(dev, select, kind):
     if not select:
         return ()
@@ -125,6 +136,8 @@ def _handle_refs(dev, select, kind):
     pmn = mdib.data_model.pm_names
     if select == 'unknown':
         return ('no-such-handle',)
+    if select == 'created':
+        return (CREATED_HANDLE,)
     if select == 'mds':
         return (sorted(d.Handle for d in mdib.descriptions.NODETYPE.get(pmn.MdsDescriptor))[0],)
     # the handle the writer of this kind touches
@@ -170,6 +183,26 @@ def _writer(dev, kind, marker):
             with mdib.descriptor_transaction() as tr:
                 d = tr.get_descriptor(handle)
                 d.Unit = pm_types.CodedValue(f'unit{marker}')
+        return w
+    if kind == 'delete':          # removes the descriptor a '[touched]' request selects: the SET of selected entities changes
+        handle = sorted(d.Handle for d in mdib.descriptions.NODETYPE.get(pmn.NumericMetricDescriptor))[0]
+
+        def w():
+            with mdib.descriptor_transaction() as tr:
+                tr.remove_descriptor(handle)
+        return w
+    if kind == 'create':          # creates the descriptor a '[created]' request selects
+        sibling = mdib.descriptions.handle.get_one(sorted(d.Handle for d in mdib.descriptions.NODETYPE.get(pmn.NumericMetricDescriptor))[0])
+
+        def w():
+            from sdc11073.mdib import descriptorcontainers as dc
+            nd = dc.NumericMetricDescriptorContainer(CREATED_HANDLE, sibling.parent_handle)
+            nd.Unit = pm_types.CodedValue(f'unit{marker}')
+            nd.Resolution = Decimal('0.1')
+            nd.MetricCategory = pm_types.MetricCategory.MEASUREMENT
+            nd.MetricAvailability = pm_types.MetricAvailability.CONTINUOUS
+            with mdib.descriptor_transaction() as tr:
+                tr.add_descriptor(nd, state_container=mdib.data_model.get_state_class_for_descriptor(nd)(nd))
         return w
     if kind == 'waveform':
         handle = sorted(d.Handle for d in mdib.descriptions.NODETYPE.get(pmn.RealTimeSampleArrayMetricDescriptor))[0]
@@ -277,6 +310,8 @@ def ob_snapshot(ctx):
             return {'verdict': 'inconclusive', 'reason': 'solver returned ' + r, 'queries': queries}
         model = s.model()
         schedule = sched.schedule_from_model(model, order)
+        if p['kind'] in ('delete', 'create'):
+            rec, dev = _build()       # the recording already deleted / created the descriptor: replay on a fresh provider
         label, detail = _replay(rec, dev, p, schedule)
         if label != 'ok':
             return {'verdict': 'counterexample', 'label': label, 'replayed': True, 'queries': queries,
